@@ -1334,10 +1334,19 @@ Example lut_hardswish_example :
 Proof. vm_compute. repeat split. Qed.
 
 (* ------------------------------------------------------------------------------------------
-   REFUTED for the NumPy scalar type a real call site passes: shift_left16 on np.int16 does not saturate.
-   Witness replayed on the real function by tools/checks/c19.py (fp_math.shift_left16(np.int16(32640), 1) = -256). *)
-Lemma shift_left16_np_int16_refuted_lemma :
+   shift_left16 on an np.int16 operand, code as it exists now: equals the saturating reference *)
+Lemma shift_left16_np_int16_eq_lemma a off :
+  in_int 16 a = true -> 0 <= off <= 30 ->
+  np_shift_left16_int16 a off = Some (SaturatingLeftShift16 a off).
+Proof.
+  intros Ha Ho. unfold np_shift_left16_int16.
+  destruct (shift_left16_saturates_lemma a off Ha ltac:(lia)) as [_ H]. apply H. lia.
+Qed.
+
+(* The expression used before /repo d51cb08 (a * (1 << offset) evaluated in int16) did NOT saturate: record of the
+   repaired defect.  fp_math.shift_left16(np.int16(32640), 1) returned -256 on that code. *)
+Lemma shift_left16_old_np_int16_refuted_lemma :
   exists a off, in_int 16 a = true /\ 0 <= off <= 30 /\
-    np_shift_left16_int16 a off = Some (-256) /\ SaturatingLeftShift16 a off = 32767 /\
-    G.shift_left16 a off = Some 32767.
+    np_shift_left16_int16_old a off = Some (-256) /\ SaturatingLeftShift16 a off = 32767 /\
+    np_shift_left16_int16 a off = Some 32767.
 Proof. exists 32640, 1. vm_compute. repeat split; discriminate. Qed.
